@@ -49,7 +49,13 @@ type Client struct {
 	in   io.WriteCloser
 	out  *bufio.Reader
 	errb *tailBuffer
+	// served counts the cases handled by the current child; the child is replaced every
+	// recycleEvery cases so that memory retained by abandoned instances of the code under
+	// test (goroutines that outlive their swarm) cannot accumulate over a long campaign.
+	served int
 }
+
+const recycleEvery = 150
 
 type tailBuffer struct {
 	mu sync.Mutex
@@ -100,22 +106,27 @@ func (c *Client) start() error {
 
 // Result of one case.
 type Result struct {
-	OK       bool
-	Died     bool   // the child process terminated while handling the case
-	Timeout  bool   // no answer within the limit (child was killed)
-	Message  string // failure text or the tail of the child's stderr
-	Infra    bool   // the worker could not be started
+	OK      bool
+	Died    bool   // the child process terminated while handling the case
+	Timeout bool   // no answer within the limit (child was killed)
+	Message string // failure text or the tail of the child's stderr
+	Infra   bool   // the worker could not be started
 }
 
 // Run sends one case and waits for the answer.
 func (c *Client) Run(v any, limit time.Duration) Result {
 	c.mu.Lock()
 	defer c.mu.Unlock()
+	if c.cmd != nil && c.served >= recycleEvery {
+		c.retire()
+	}
 	if c.cmd == nil {
 		if err := c.start(); err != nil {
 			return Result{Infra: true, Message: err.Error()}
 		}
+		c.served = 0
 	}
+	c.served++
 	b, err := json.Marshal(v)
 	if err != nil {
 		return Result{Infra: true, Message: err.Error()}
@@ -170,7 +181,27 @@ func (c *Client) dead(why string) Result {
 	}
 	msg := fmt.Sprintf("worker died (%s; %s); stderr tail: %s", why, state, tail(c.errb.String()))
 	c.cmd = nil
+	if strings.Contains(state, "signal: killed") {
+		// SIGKILL never comes from the Go runtime (a panic or fatal error exits with status 2):
+		// the child was killed from outside, e.g. by the kernel's out-of-memory killer.
+		return Result{Infra: true, Message: msg}
+	}
 	return Result{Died: true, Message: msg}
+}
+
+// retire ends the current child in an orderly way (end of input), killing it if it lingers.
+func (c *Client) retire() {
+	c.in.Close()
+	done := make(chan struct{})
+	cmd := c.cmd
+	go func() { cmd.Wait(); close(done) }()
+	select {
+	case <-done:
+	case <-time.After(2 * time.Second):
+		cmd.Process.Kill()
+		<-done
+	}
+	c.cmd = nil
 }
 
 func (c *Client) kill() {
